@@ -549,6 +549,13 @@ func (w *World) M04(rec *ScanRecord) []Violation {
 				out = append(out, viol("C04", sig, "group %d: requested target %d exceeds min(max_nodes %d, cloud max %d)", gr.G, target, gr.EffMax, rec.ASGs[w.CloudName(gr.G)].Max))
 			}
 		}
+		// what escalator asks of the provider object counts as asking the cloud provider, whether or
+		// not the provider turns it down: IncreaseSize(delta) on top of the current target stays within the bound
+		for _, e := range gr.IncreaseCalls {
+			if cur := desiredAtScaleUp(w, rec, gr); e.Value > 0 && cur+e.Value > B && len(gr.Increase) == 0 {
+				out = append(out, viol("C04", "asked-above-bound", "group %d: IncreaseSize(%d) on a current target of %d exceeds min(max_nodes %d, cloud max %d)", gr.G, e.Value, cur, gr.EffMax, rec.ASGs[w.CloudName(gr.G)].Max))
+			}
+		}
 		// clamp lands exactly on the bound
 		ex := w.Expectation(rec, gr)
 		if scaleUpDisturbed(rec, gr) {
@@ -585,7 +592,15 @@ func (w *World) M04(rec *ScanRecord) []Violation {
 // the real desired capacity at call time; for a fleet the requested total). cloudFailed
 // reports that the cloud (not escalator) refused or failed a request.
 func brought(gr *GroupRec) (K, R int64, reqs int, cloudFailed bool) {
-	K = int64(len(gr.UntaintedNow()))
+	// nodes brought back into service: untaints of tainted, uncordoned nodes (taking the taint off a
+	// cordoned node restores nothing)
+	for _, name := range gr.UntaintedNow() {
+		for _, n := range gr.GV.Tainted {
+			if n.Name == name {
+				K++
+			}
+		}
+	}
 	for _, e := range gr.Increase {
 		reqs++
 		switch e.Kind {
@@ -595,8 +610,19 @@ func brought(gr *GroupRec) (K, R int64, reqs int, cloudFailed bool) {
 			R += e.Value
 		}
 	}
+	// a failed IncreaseSize excuses a missing request only if the cloud refused or failed a call;
+	// a provider that turns the request down by itself has simply not asked
+	awsTrouble := false
+	for _, e := range gr.Seg {
+		switch e.Kind {
+		case sim.ASetDesired, sim.ACreateFleet, sim.AAttach, sim.AStatusPages, sim.ADescribeInst, sim.ATerminateInst, sim.ADescribeASG:
+			if !e.OK() {
+				awsTrouble = true
+			}
+		}
+	}
 	for _, e := range gr.IncreaseCalls {
-		if !e.OK() {
+		if !e.OK() && (awsTrouble || len(gr.Increase) > 0) {
 			cloudFailed = true
 		}
 	}
@@ -940,6 +966,18 @@ func (w *World) M09(rec *ScanRecord) []Violation {
 		for _, t := range w.writeTargets(rec, gr) {
 			if t.node != nil && t.node.Spec.Unschedulable {
 				out = append(out, viol("C09", "write-on-cordoned", "group %d: %s targets cordoned node %s", gr.G, t.e.String(), t.node.Name))
+			}
+		}
+		// never counted: the size of a scale-up is worked out from the untainted nodes alone. A size
+		// that is too large for them but fits the node count with the cordoned nodes added was counted wrongly.
+		if ex := w.Expectation(rec, gr); ex.Kind == "band" && ex.Bands == [4]bool{false, false, false, true} && ex.Need > 0 && !ex.FromZero &&
+			len(gr.GV.Cordoned) > 0 && len(gr.GV.Untainted) > 0 && !cloudPathDisturbed(rec, gr) && len(gr.Failed) == 0 {
+			K, R, nreq, cloudFailed := brought(gr)
+			U, C := int64(len(gr.GV.Untainted)), int64(len(gr.GV.Cordoned))
+			if got := K + R; !cloudFailed && nreq > 0 && got > ex.Need+1 && got <= (ex.Need+1)*(U+C)/U+1 {
+				if targets, _ := requestedTargets(w, rec, gr); len(targets) > 0 && targets[0] < w.Bound(rec, gr) {
+					out = append(out, viol("C09", "scale-up-size-counts-cordoned-nodes", "group %d: %d untainted and %d cordoned nodes, %d more nodes suffice, %d brought in (what the count with the cordoned nodes gives)", gr.G, U, C, ex.Need, got))
+				}
 			}
 		}
 		if gr.Dry {
